@@ -200,6 +200,7 @@ func checkC06(c *h.Check) {
 	for _, bad := range []int{0, 4} {
 		for swap := 0; swap < 2; swap++ {
 			addProg(fmt.Sprintf("C06/two-injector-files/bad=%d/last=%d", bad, swap), twoFilesProgram(bad, swap == 1))
+			addProg(fmt.Sprintf("C06/two-injector-files/bad=%d/last=%d/extra=2", bad, swap), twoFilesProgramN(bad, swap == 1, 2))
 		}
 	}
 	// Family F: one removal that leaves two types without a source (both forms of a struct provider; both members of a
